@@ -136,3 +136,73 @@ PROPS = {
                         "sampled histories, not exhaustive"],
     },
 }
+
+REAL_NET = ["des net layer: Sim/SimBuilder, ModuleContext, gates, channels, messages, processing stack, shutdown/restart, unwind harness (real code)", "des runtime + des-cqueue (real code)", "tokio current-thread runtime + LocalSet per module (real code)"]
+STUB_NET = ["user code only: scripted modules, processing elements and message bodies interpreting the generated program"]
+
+def net_prop(**kw):
+    d = {"engine": "net", "level": "exploration", "technique": SIM_TECH,
+         "components": {"real": REAL_NET, "stub": STUB_NET},
+         "fault_probes": [], "expected_probes": []}
+    d.update(kw)
+    return d
+
+PROPS.update({
+    "C04": net_prop(
+        technique=SIM_TECH + " (differential: same program and seed executed twice in one process and in separate processes with shifted global counters and heap)",
+        level_text="Seeded exploration: generated multi-module models (jittered channels, random draws, chained/pre-scheduled timers, restarts) are "
+                   "executed twice back to back in one process and again in a second set of worker processes that first run a seed-derived "
+                   "number of unrelated simulations and allocate a heap prelude; all traces (time, module, message, random values, result) "
+                   "must be identical. No reference model is involved. Sampled, not exhaustive.",
+        level_note="Trusted: the trace recorder (records never contain module ids, counters or addresses).",
+        runs={"quick": 6000, "thorough": 600_000},
+        rule="generated network models x des seeds; each executed 2x in-process and 1x in another process after warm-up sims; distinct = "
+             "distinct program hash; non-trivial = the trace contains a jittered delivery or a random draw",
+        assumptions=["traces abstract from process-dependent identities by construction", "sampled programs, not exhaustive"]),
+    "C07": net_prop(
+        level_text="Seeded exploration: traffic patterns (bursts, gaps below / equal to / above the transmission time, sizes 64 B..4 KiB) over "
+                   "channels from a metrics menu (bitrate 0..1e9, latency, jitter, Drop / Queue(None) / Queue(limit)) run on the real net layer; a "
+                   "per-direction channel model is stepped through the recorded offers (busy flag and finish time observed right before each "
+                   "send) and every offered message must be delivered exactly once in its time window or dropped by the stated rule.",
+        level_note="Trusted: the channel model (60 lines) and Duration::from_secs_f64 for size*8/bitrate. At an exact tie between an offer and the end of a transmission both orders are accepted and followed.",
+        runs={"quick": 30_000, "thorough": 3_000_000},
+        rule="sender/receiver pairs with one channel each (both directions used) x metrics menu x offer schedules; distinct = distinct program "
+             "hash; non-trivial = at least one offer met a busy channel",
+        fault_probes=["dropped_busy", "dropped_queue_full", "queued"],
+        expected_probes=["dropped_busy", "dropped_queue_full", "queued", "offer_ties_with_end_of_transmission"],
+        assumptions=["message loss is injected through busy Drop channels and byte-bounded queues", "sampled, not exhaustive"]),
+    "C08": net_prop(
+        level_text="Seeded exploration: gate chains of 1..16 hops over 2..8 modules built from connect calls in random order and orientation "
+                   "(with idempotent repeats, self-connects and third-peer connects mixed in), channels on random hops, sends from both "
+                   "ends, immediate and delayed; the harness keeps its own graph of the connect calls and predicts receiver, arrival time, header "
+                   "fields and the path enumeration of every gate.",
+        level_note="Trusted: the harness graph model; channels are kept idle by spacing so only C08's clauses are exercised. A rejected connect ends the build (the gate stays locked after the panic).",
+        runs={"quick": 20_000, "thorough": 2_000_000},
+        rule="chain shapes x connect permutations/orientations x channel placement x both directions x send / send_in; distinct = distinct "
+             "program hash; non-trivial = a chain of >= 3 gates exists and at least one message was sent",
+        fault_probes=["illegal_connect_rejected"],
+        expected_probes=["illegal_connect_rejected", "chain_of_three_or_more_gates", "delayed_send", "hop_with_channel"],
+        assumptions=["jitter 0 on all channels of C08 scenarios", "sampled, not exhaustive"]),
+    "C12": net_prop(
+        level_text="Seeded exploration: module trees (depth <= 4, fan-out <= 5, prefix-sharing names) inserted in random valid orders with 1..4 "
+                   "start stages per module, invalid builder calls mixed in, ordinary traffic afterwards; the recorded at_sim_start / "
+                   "at_sim_end calls must equal the stage-major depth-first pre-order sequence computed from the declared tree.",
+        level_note="Trusted: the reference sequence generator (20 lines). The schedule dimension of this property is the insertion order.",
+        runs={"quick": 20_000, "thorough": 2_000_000},
+        rule="module trees x valid insertion orders x stage counts; distinct = distinct program hash; non-trivial = insertion order differs "
+             "from pre-order and some module declares >= 2 stages",
+        fault_probes=["invalid_node_rejected"],
+        expected_probes=["invalid_node_rejected", "insertion_order_differs_from_preorder", "tree_query"],
+        assumptions=["sampled, not exhaustive"]),
+    "C14": net_prop(
+        level_text="Seeded exploration: processing stacks of 0..6 scripted elements (pass / modify / consume, optionally sending from a hook) "
+                   "supplied globally (with_stack / set_stack) and per module (appended / prepended) under message, start-up, restart and "
+                   "tear-down events; the recorded hook calls are parsed against the bracket grammar of the property.",
+        level_note="Trusted: the bracket parser. Module::reset runs outside brackets and is skipped by the parser; timer wake-up brackets are covered by the async scenarios.",
+        runs={"quick": 20_000, "thorough": 2_000_000},
+        rule="processing stacks x event kinds x message sequences; distinct = distinct program hash; non-trivial = a stack of >= 2 elements, "
+             ">= 1 consumed message and >= 1 non-message event",
+        fault_probes=["message_consumed_by_element"],
+        expected_probes=["message_consumed_by_element", "bracket_checked"],
+        assumptions=["sampled, not exhaustive"]),
+})
